@@ -633,15 +633,12 @@ def rule_frob_dispatch(prop, repo):
             continue
         tb = repo.tb(b)
         arms = set()
-        for bi in sorted(b.reachable()):
-            t = b.blocks[bi]["term"]
-            if t["k"] == "switch" and tb.operand(t["discr"], bi, len(b.blocks[bi]["stmts"])) == ("param", 2):
-                for val, tg in t["arms"]:
-                    # an arm is implemented when it reaches a return
-                    ev = paths.Evaluator({})
-                    ev.intvals[("param", 2)] = int(val)
-                    if paths.simulate(b, tb, ev).end == "return":
-                        arms.add(int(val))
+        # a power is implemented when the body, followed with that literal, reaches a return (match arm or if-chain alike)
+        for val in range(0, 64):
+            ev = paths.Evaluator({})
+            ev.intvals[("param", 2)] = val
+            if paths.simulate(b, tb, ev).end == "return":
+                arms.add(val)
         impl[path] = arms
     for b in F.fn_bodies():
         tb = None
